@@ -20,6 +20,7 @@ import (
 
 	"pgregory.net/rapid"
 
+	"github.com/AliyunContainerService/terway/pkg/storage"
 	"github.com/AliyunContainerService/terway/rpc"
 	"github.com/AliyunContainerService/terway/zz_verif/cloudsim"
 	"github.com/AliyunContainerService/terway/zz_verif/vt"
@@ -41,6 +42,12 @@ type c04Op struct {
 	CancelUS int `json:"cancel_us,omitempty"`
 	// FailPut (req, kind add): the record write of this ADD fails (database write error)
 	FailPut bool `json:"fail_put,omitempty"`
+	// FailDisk (with FailPut): the write fails inside the disk store (bolt database closed for
+	// the duration of the request) instead of in front of it
+	FailDisk bool `json:"fail_disk,omitempty"`
+	// FailPatch (req, kind add): the pod-ips annotation patch of this ADD is refused by the
+	// api server (the unchanged daemon ignores that error)
+	FailPatch bool `json:"fail_patch,omitempty"`
 }
 
 type c04Scenario struct {
@@ -96,6 +103,10 @@ func c04Gen(t *rapid.T) c04Scenario {
 		o.A = c04GenReq(t, "a")
 		if o.Kind == "req" && o.A.Kind == "add" && rapid.IntRange(0, 7).Draw(t, "failput") == 0 {
 			o.FailPut = true
+			o.FailDisk = rapid.Bool().Draw(t, "faildisk")
+		}
+		if o.Kind == "req" && o.A.Kind == "add" && !o.FailPut && rapid.IntRange(0, 7).Draw(t, "failpatch") == 0 {
+			o.FailPatch = true
 		}
 		switch o.Kind {
 		case "overlap":
@@ -589,18 +600,34 @@ func c04RunOpt(c *vt.Ctx, s c04Scenario, noGuard bool) {
 		case "req":
 			cid := x.cidFor(o.A)
 			before := x.podView(o.A.Pod)
+			var repair func() error
 			if o.FailPut {
 				// "an ADD that fails hands back every address it took": here it fails at its very
 				// last step, the record write (outside the statement's quantifier, which is about
 				// request interleavings and cancellation; explored as extra coverage)
-				x.w.store.failPut = vsKey("ns", c04PodName(o.A.Pod))
-				x.labels["record-write-fails"] = true
+				if o.FailDisk {
+					repair = storage.VerifBreak(x.w.db)
+					x.labels["record-write-fails-at-the-disk"] = true
+				} else {
+					x.w.store.failPut = vsKey("ns", c04PodName(o.A.Pod))
+					x.labels["record-write-fails"] = true
+				}
+			}
+			if o.FailPatch {
+				k.failPatch.Store(1)
+				x.labels["pod-ips-patch-fails"] = true
 			}
 			ctx, cancel := context.WithTimeout(context.Background(), c04ReqTimeout)
 			res := x.issue(ctx, o.A, cid)
 			cancel()
 			x.w.store.failPut = ""
-			x.judge(o.A, cid, res, before, res.err != nil && o.FailPut)
+			k.failPatch.Store(0)
+			if repair != nil {
+				if err := repair(); err != nil {
+					c.Inconclusive("could not re-open the database: " + err.Error())
+				}
+			}
+			x.judge(o.A, cid, res, before, res.err != nil && (o.FailPut || o.FailPatch))
 		case "overlap", "cancel":
 			x.stepParked(o)
 		case "race":
